@@ -197,10 +197,17 @@ func c09Enrich(c *Ctx) {
 	key := fk(fn)
 	isReqHeader := func(v ssa.Value) bool {
 		fv, base := FieldOf(v)
-		return fv != nil && fv.Name() == "Header" && base == ssa.Value(fn.Params[0])
+		return fv != nil && fv.Name() == "Header" && base != nil && (base == ssa.Value(fn.Params[0]) ||
+			DerivesOnly(base, false, func(r ssa.Value) bool { return r == ssa.Value(fn.Params[0]) }))
+	}
+	// the function and the helpers of its package it hands the request to (enrichHost(req, values), ...)
+	eachEnrich := func(f func(ssa.Instruction)) {
+		for _, g := range FindFuncs(fn, 2, func(g *ssa.Function) bool { return PkgOf(g) == PkgOf(fn) }) {
+			EachInstr(g, f)
+		}
 	}
 	nUpd := 0
-	EachInstr(fn, func(in ssa.Instruction) {
+	eachEnrich(func(in ssa.Instruction) {
 		mu, ok := in.(*ssa.MapUpdate)
 		if !ok || !isReqHeader(mu.Map) {
 			return
@@ -208,7 +215,10 @@ func c09Enrich(c *Ctx) {
 		nUpd++
 		found, _ := absentFact(mu, isReqHeader, mu.Key)
 		canon := false
-		if cl, _ := CallOfValue(mu.Key); cl != nil && MatchCC(&cl.Call, Spec{"net/textproto", "", "CanonicalMIMEHeaderKey"}) {
+		if DerivesOnly(mu.Key, false, func(r ssa.Value) bool {
+			cl, _ := CallOfValue(r)
+			return cl != nil && MatchCC(&cl.Call, Spec{"net/textproto", "", "CanonicalMIMEHeaderKey"})
+		}) {
 			canon = true
 		}
 		vals := rangedOver(mu.Value, func(m ssa.Value) bool { return m == ssa.Value(fn.Params[1]) })
@@ -217,7 +227,7 @@ func c09Enrich(c *Ctx) {
 	c.Check(nUpd == 1, "O9.2", key+":single-header-write", fn.Pos(), fmt.Sprintf("%d writes into req.Header (want 1)", nUpd))
 	// Header.Set / Add / Del on req.Header are not used here
 	nOther := 0
-	EachInstr(fn, func(in ssa.Instruction) {
+	eachEnrich(func(in ssa.Instruction) {
 		if IsCall(in, sHeaderSet, sHeaderAdd, sHeaderDel) {
 			nOther++
 		}
@@ -226,7 +236,7 @@ func c09Enrich(c *Ctx) {
 	// Host
 	okHost := false
 	nHost := 0
-	EachInstr(fn, func(in ssa.Instruction) {
+	eachEnrich(func(in ssa.Instruction) {
 		if _, ok := storeExact(in, "Request", "Host"); !ok {
 			return
 		}
